@@ -276,6 +276,7 @@ impl Prop for C18 {
         let positive = tree.needs_positive_feed();
         let shape = if i < nw * n_shapes { (i / nw) as u8 } else { r.below(SHAPES.len()) as u8 };
         // a third of the runs outside the systematic block use a periodic feed (where the strict oracle applies)
+        let shape = crate::feed::shape_for(std::slice::from_ref(&tree), shape);
         let shape = if sys_ultra { 14 } else if i >= nw * n_shapes && r.chance(0.3) { *r.pick(&[14u8, 14, 14, 4, 6]) } else { shape };
         let scale = crate::feed::pick_scale(r, !tree.needs_positive_feed() && !tree.contains(K::Mul));
         let l0 = warm_len(&tree);
